@@ -110,7 +110,9 @@ def real_line(o):
         else:
             ev.append('F:%s:%d:%d:%s' % (rat(e[1]), e[2], e[3], rat(e[4])))
     ids = {(t, c): i for (t, c, i) in o['scheduled']}
-    q = ';'.join('%s:%d:%d' % (rat(t), c, ids[(t, c)]) for (t, c) in o['queue'])
+    # an entry the harness did not schedule itself (re-inserted by the implementation) prints as id -1:
+    # that is a correspondence difference, never a harness fault
+    q = ';'.join('%s:%d:%d' % (rat(t), c, ids.get((t, c), -1)) for (t, c) in o['queue'])
     return '%s t=%s ctr=%d trace=%s queue=%s' % (o['status'], rat(o['t1']), o['ctr'], ';'.join(ev), q)
 
 
